@@ -52,7 +52,7 @@ Print Assumptions C06_executed_tests.
 
 Theorem C06_missing_shadow_reported : forall ph fuel sp base c b rep w d,
   nanoc ph fuel sp base = NExit c b rep w -> front_ok ph = true ->
-  In d (pfns (sp_prog sp)) -> fname d <> pmain (sp_prog sp) -> has_shadow sp (fname d) = false ->
+  In d (pfns (sp_prog sp)) -> fname d <> pmain (sp_prog sp) -> ~ In (fname d) (sp_imported sp) -> has_shadow sp (fname d) = false ->
   In (fname d) w.
 Proof. exact missing_shadow_reported. Qed.
 Print Assumptions C06_missing_shadow_reported.
@@ -80,6 +80,13 @@ Theorem C06_gate_refuted :
 Proof. exact (conj refuted_spec_8_1 unsound_pass_spec_8_1). Qed.
 Print Assumptions C06_gate_refuted.
 
+(* which blocks run: ALL of them.  sp_shadows is the list of every shadow block of the compiled file in source order; a function
+   may have several (C06_executed_tests above speaks about the whole list, duplicates included).  Two blocks for function 2, the
+   first one false, the last one true: refused, the failing block named *)
+Example C06_every_block_runs_example :
+  nanoc {| front_ok := true; later_ok := true |} 200 spmulti [] =
+  NExit 1 false [RTesting 2%N [] false; RFailed 2%N 1; RTesting 0%N [] true; RTesting 2%N [] true; RShadowTestsFailed] [].
+Proof. exact every_block_runs. Qed.
 Example C06_gate_open_example : produces_binary (nanoc {| front_ok := true; later_ok := true |} 200 spgood []).
 Proof. vm_compute. exact I. Qed.
 Example C06_gate_closed_example :
